@@ -100,6 +100,17 @@ func (a *archetype) bind(entity Entity) {
 	a.entities = append(a.entities, entity)
 }
 
+// unbind 从原型中移除实体及其存储行
+func (a *archetype) unbind(entity Entity) {
+	a.storage.DelRow(entity.id())
+	for i, e := range a.entities {
+		if e == entity {
+			a.entities = append(a.entities[:i], a.entities[i+1:]...)
+			break
+		}
+	}
+}
+
 func (a *archetype) bindMany(e []Entity) {
 	ids := make([]entityId, len(e))
 	for i, entity := range e {
